@@ -65,9 +65,10 @@ int main(int argc, char **argv)
     }
   void *h = dlsym(RTLD_DEFAULT, argv[1]);
   if (!h) { std::fprintf(stderr, "no such harness %s\n", argv[1]); return 2; }
-  unsigned long a[4] = {0, 0, 0, 0};
-  for (int i = 3; i < argc && i < 7; ++i) a[i-3] = std::strtoul(argv[i], nullptr, 10);
-  try { reinterpret_cast<void (*)(unsigned long, unsigned long, unsigned long, unsigned long)>(h)(a[0], a[1], a[2], a[3]); }
+  unsigned long a[6] = {0, 0, 0, 0, 0, 0};      // six integer registers in the SysV ABI: harnesses take at most six integer arguments
+  if (argc > 9) { std::fprintf(stderr, "too many harness arguments\n"); return 2; }
+  for (int i = 3; i < argc; ++i) a[i-3] = std::strtoul(argv[i], nullptr, 10);
+  try { reinterpret_cast<void (*)(unsigned long, unsigned long, unsigned long, unsigned long, unsigned long, unsigned long)>(h)(a[0], a[1], a[2], a[3], a[4], a[5]); }
   catch (const std::exception &e) { std::printf("THROW\n"); return failures ? 1 : 0; }
   catch (...) { std::printf("THROW\n"); return failures ? 1 : 0; }
   std::printf("END\n");
